@@ -38,6 +38,7 @@ class FakeSocket:
         self.eof = False              # other end closed
         self.closed = False
         self.refused = False
+        self.rst = False              # the other end reset the connection: reads and writes fail, unread data is lost
         self.backlog = collections.deque()   # listening: pending server-side sockets
         self.remote_addr = ("0.0.0.0", 0)
         self.received = bytearray()   # harness endpoints: everything the node sent
@@ -75,6 +76,9 @@ class FakeSocket:
             raise OSError(9, "Bad file descriptor")
         if self.refused:
             raise ConnectionRefusedError(111, "Connection refused")
+        if self.rst:
+            self.net.recv_faults += 1
+            raise ConnectionResetError(104, "Connection reset by peer")
         k = min(n, self.net.next_recv_size, len(self.in_flight))
         if k == 0:
             if self.eof:
@@ -91,7 +95,11 @@ class FakeSocket:
             raise OSError(9, "Bad file descriptor")
         if self.refused or self.peer is None:
             raise ConnectionRefusedError(111, "Connection refused")
+        if self.rst:
+            self.net.send_faults += 1
+            raise ConnectionResetError(104, "Connection reset by peer")
         if self.peer.closed or self.eof:
+            self.net.send_faults += 1
             raise BrokenPipeError(32, "Broken pipe")
         k = min(len(data), self.net.next_send_size)
         chunk = bytes(data[:k])
@@ -114,6 +122,13 @@ class FakeSocket:
         """harness endpoint: bytes towards the node"""
         assert self.owner is None
         self.peer.in_flight += data
+
+    def reset(self):
+        """harness endpoint: abort the connection (RST) instead of closing it in an orderly way"""
+        assert self.owner is None
+        self.closed = True
+        self.peer.rst = True
+        self.peer.eof = True
 
     def take_received(self):
         out = bytes(self.received)
@@ -197,6 +212,8 @@ class Net:
         self.actions = hashlib.blake2b(digest_size=8)
         self.n_actions = 0
         self.io_log = None      # optional list of (dir, node name, bytes)
+        self.send_faults = 0    # sends that failed because the other end had gone
+        self.recv_faults = 0    # reads that failed because the other end reset the connection
         self.refuse = set()     # addresses that refuse connections although a node listens
         self.all_sockets = []
 
